@@ -41,7 +41,9 @@ type c07Case struct {
 	Reuse     bool   `json:"reuse"` // parse into an object that was used before
 }
 
-var c07Templates = []string{`1`, `"s"`, `[]`, `{"a":1}`, `"a longer string value with \n escape"`, `[1,2,[3,{"k":null}]]`, `true`, `12345.678e-3`}
+var c07Templates = []string{`1`, `"s"`, `[]`, `{"a":1}`, `"a longer string value with \n escape"`, `[1,2,[3,{"k":null}]]`, `true`, `12345.678e-3`,
+	// one element that is a multi-megabyte string (kind 8), and short elements used for documents beyond 1 MiB (kind 9)
+	`"` + strings.Repeat("long string ", 220000) + `"`, `{"id":12345,"v":[true,null]}`}
 
 func (c c07Case) doc() []byte {
 	d := c.doc1()
@@ -570,10 +572,25 @@ func genC07Case(t *rapid.T) c07Case {
 	if thorough() {
 		maxBuf = 120
 	}
+	if c.Kind == 8 {
+		// a few elements, each a string of about 2.6 MB
+		c.N = rapid.IntRange(1, 3).Draw(t, "nlong")
+		c.Strategy = rapid.IntRange(0, 3).Draw(t, "strategy")
+		c.Procs = []int{1, 2, 4, 16}[rapid.IntRange(0, 3).Draw(t, "gomaxprocs")]
+		if rapid.IntRange(0, 2).Draw(t, "invalid") == 0 {
+			c.ErrKind = rapid.IntRange(1, 6).Draw(t, "errkind")
+			c.ErrPos = rapid.IntRange(0, 1000).Draw(t, "errpm")
+		}
+		return c
+	}
+	if c.Kind == 9 {
+		maxBuf = 400 // beyond 1 MiB
+	}
 	nbuf := rapid.IntRange(3, maxBuf).Draw(t, "buffers")
-	if rapid.Bool().Draw(t, "wrap") {
+	if rapid.Bool().Draw(t, "wrap") && c.Kind != 9 {
 		nbuf = 14 + nbuf%24 // around and beyond the 16-slot ring
 	}
+	errNearEnd := c.Kind == 9 && rapid.Bool().Draw(t, "errnearend")
 	c.N = nbuf * 1408 / per
 	minN := 8300/(len(tmpl)+1) + 1
 	if c.N < minN {
@@ -584,6 +601,13 @@ func genC07Case(t *rapid.T) c07Case {
 		c.ErrPos = []int{1, 20, 500, 900, 999}[rapid.IntRange(0, 4).Draw(t, "errpos")]
 		if rapid.Bool().Draw(t, "anypos") {
 			c.ErrPos = rapid.IntRange(0, 1000).Draw(t, "errpm")
+		}
+		if errNearEnd {
+			// an error a little more than a ring's worth of index buffers before the end of the document
+			c.ErrPos = 1000 - 1000*rapid.IntRange(12, 20).Draw(t, "bufsbeforeend")/nbuf
+			if c.ErrPos < 0 {
+				c.ErrPos = 0
+			}
 		}
 	}
 	c.Procs = []int{1, 2, 4, 16}[rapid.IntRange(0, 3).Draw(t, "gomaxprocs")]
